@@ -1176,7 +1176,7 @@ class PerturbedDroplet3D(PerturbedDropletBase):
             if a != 0:
                 l, _ = spherical.spherical_index_lm(k)
                 hk = (l**2 + l - 2) / 2
-                correction = a * hk * Yk(k, θ, φ)  # type: ignore
+                correction += a * hk * Yk(k, θ, φ)  # type: ignore
         return 1 / self.radius + correction / self.radius**2  # type: ignore
 
     @property
@@ -1269,7 +1269,7 @@ class PerturbedDroplet3DAxisSym(PerturbedDropletBase):
         for order, a in enumerate(self.amplitudes, 1):  # skip zero-th mode!
             if a != 0:
                 hl = (order**2 + order - 2) / 2
-                correction = a * hl * Yl(order, θ)  # type: ignore
+                correction += a * hl * Yl(order, θ)  # type: ignore
         return 1 / self.radius + correction / self.radius**2  # type: ignore
 
     @property
